@@ -563,7 +563,9 @@ fn observe<T>(xs: &[T]) {
 }
 
 const ROUTES: [&str; 3] = ["with_typed_slice", "with_typed_slice_ref", "with_typed"];
-const CLIENTS: [&str; 3] = ["bulk", "aligned", "generic"];
+/// (index 3 is used by part route only: the aligned body handed to the builder BEFORE the query, so the
+/// padding was chosen for another frame offset)
+const CLIENTS: [&str; 4] = ["bulk", "aligned", "generic", "aligned-body-before-query"];
 
 struct Env {
     routers: [Router; 3],
@@ -592,6 +594,9 @@ fn env<T: Elem>(paths: &[String]) -> Env {
 
 /// Request exactly as `Client::call_with_body_and_timeout` builds it for the three helpers.
 fn client_request<T: Elem>(client: usize, path: &str, v: &[T]) -> Message {
+    if client == 3 {
+        return Message::builder().id(REQ_ID).body_aligned_typed_slice(v).query_str(path).query_format_code(QueryFormat::JsonPointer as u16).build();
+    }
     let b = Message::builder().id(REQ_ID).query_str(path).query_format_code(QueryFormat::JsonPointer as u16);
     match client {
         0 => b.body_typed_slice(v),
@@ -661,11 +666,21 @@ fn route_group<T: Elem>(w: &mut W, env: &Env, n: usize, rot: usize, q: usize, cl
     };
     w.add(C::impl_calls, 2);
     let base_case = json!({"part": "route", "type": T::NAME, "len": n, "rot": rot, "q": q, "client": CLIENTS[client]});
-    if client == 1 {
-        check_wire_paths(w, &req, "aligned", &base_case);
+    let aligned_form = client == 1 || client == 3;
+    if aligned_form {
+        check_wire_paths(w, &req, CLIENTS[client], &base_case);
+        // the emitted frame, parsed independently, carries exactly the built query and body
+        match crate::frames::parse_one(&frame) {
+            Ok(Some((f, used))) if used == frame.len() && f.body == req.body && f.query == req.query => {}
+            other => w.fail(
+                format!("C08:built-frame:header-disagrees-with-bytes:{}", CLIENTS[client]),
+                || format!("{}[{n}] q={q}: the frame emitted for the built message ({} query bytes, {} body bytes) parses independently as {:?}", T::NAME, req.query.len(), req.body.len(), other.map(|o| o.map(|(f, u)| (f.h.query_length, f.h.body_length, f.h.length, u)))),
+                &base_case,
+            ),
+        }
     }
     // independent location of the payload inside an aligned body (None for the regular forms)
-    let layout = if client == 1 {
+    let layout = if aligned_form {
         let l = aligned_layout(&req.body).filter(|(off, cnt, _)| {
             *cnt as usize == n && req.body.len() == off + std::mem::size_of_val(&v[..]) && req.body[*off..] == *bytes_of(&v)
         });
@@ -740,7 +755,7 @@ fn route_group<T: Elem>(w: &mut W, env: &Env, n: usize, rot: usize, q: usize, cl
                 let out = outcome(res);
 
                 // ---- verdict on the result
-                let must_accept = client != 1 || route == 1;
+                let must_accept = !aligned_form || route == 1;
                 match &out {
                     Outcome::Rejected(why) => {
                         if must_accept {
@@ -815,7 +830,7 @@ fn route_group<T: Elem>(w: &mut W, env: &Env, n: usize, rot: usize, q: usize, cl
                             &case,
                         );
                     }
-                    if client == 1 {
+                    if aligned_form {
                         w.inc(C::aligned_to_ref_cases);
                         if let Some((off, _, pad)) = layout {
                             let payload = body_addr + off;
@@ -830,7 +845,7 @@ fn route_group<T: Elem>(w: &mut W, env: &Env, n: usize, rot: usize, q: usize, cl
                             if place < 8 {
                                 // a frame that lands on an align_of::<T>() boundary must be borrowable:
                                 // this is what the padding for the 48 + query offset is for
-                                if place % align == 0 && !in_buf {
+                                if client == 1 && place % align == 0 && !in_buf {
                                     w.fail(
                                         "C08:borrow:aligned-frame-not-borrowed".into(),
                                         || format!("{}[{n}] q={q}: frame placed at misalignment {place} (aligned for {align}) but the payload at frame offset {} was copied, body {}", T::NAME, 48 + q + off, hex(&req.body[..req.body.len().min(16)])),
@@ -1435,7 +1450,7 @@ impl ScalarVisitor for RouteSweep<'_> {
         let mut groups: Vec<(usize, usize, usize, usize)> = Vec::new();
         for &n in &b.route_lens {
             for q in 0..=Q_MAX {
-                for client in 0..3 {
+                for client in 0..4 {
                     if n <= b.route_all_rot_upto {
                         for r in 0..rots {
                             groups.push((n, r, q, client));
@@ -1625,7 +1640,7 @@ pub fn run(tier: Tier) -> ! {
         "traces_validated_against_impl": states,
         "samples": samples.take(),
         "exhaustive": true,
-        "rule": "part msg: every (element type, length, rotation of the type's boundary set) at query length (len+3*rot)%65, plus rotation 0 at every query length 0..=64 for len<=256; part route: every (type, length, query length, client in {bulk,aligned,generic}) x route in {with_typed_slice,with_typed_slice_ref,with_typed} x placement in {handle_view at misalignment 0..7 of an 8-aligned buffer, handle on an owned Message}; part wrong: every (sent type incl. complex, client form, length) x every other receiver type x 3 routes x 3 placements, and 4 wrong header body formats; part tcp: real Client/Server and AsyncClient/AsyncServer helpers",
+        "rule": "part msg: every (element type, length, rotation of the type's boundary set) at query length (len+3*rot)%65, plus rotation 0 at every query length 0..=64 for len<=256; part route: every (type, length, query length, client in {bulk,aligned,generic,aligned with the body handed to the builder before the query}) x route in {with_typed_slice,with_typed_slice_ref,with_typed} x placement in {handle_view at misalignment 0..7 of an 8-aligned buffer, handle on an owned Message}; part wrong: every (sent type incl. complex, client form, length) x every other receiver type x 3 routes x 3 placements, and 4 wrong header body formats; part tcp: real Client/Server and AsyncClient/AsyncServer helpers",
         "bound": {
             "element_types": ALL_TYPES,
             "lengths_msg": tier.pick(format!("0..={SMALL_MAX} and {SPECIAL_LENS:?}"), "0..=4096 and [16383, 16384, 65537]".to_string()),
